@@ -202,3 +202,12 @@ theorem sc_form_roundtrip {V : Type} (r : Rec V) :
     [idTable paramConstraintFields] r (by decide) (by decide) (by decide)
 
 end KinModel.Conv
+
+namespace KinModel.Conv
+
+theorem Api_ext {V : Type} (a b : Api V) (h1 : a.ops = b.ops) (h2 : a.pathParams = b.pathParams)
+    (h3 : a.shared = b.shared) (h4 : a.sharedResponses = b.sharedResponses) (h5 : a.defs = b.defs)
+    (h6 : a.servers = b.servers) (h7 : a.security = b.security) : a = b := by
+  cases a; cases b; simp_all
+
+end KinModel.Conv
